@@ -466,7 +466,8 @@ func (s *Shard) SearchPoints(searchRequest models.SearchRequest) ([]models.Searc
 	if searchRequest.Limit == 0 {
 		searchRequest.Limit = len(finalResults)
 	}
-	finalResults = finalResults[min(searchRequest.Offset, len(finalResults)):min(searchRequest.Offset+searchRequest.Limit, len(finalResults))]
+	start := min(searchRequest.Offset, len(finalResults))
+	finalResults = finalResults[start:min(start+searchRequest.Limit, len(finalResults))]
 	// ---------------------------
 	return finalResults, nil
 }
